@@ -446,6 +446,9 @@ impl Check for C02 {
         json!({"real": ["compiler", "VM dispatch loop", "allocator", "collector", "tables / hash map", "stdlib (cards and natives)"],
                "stub": ["host natives log/id/mk_table/mk_str/call0-2 (the simulated host)"]})
     }
+    fn asan_flavour_share(&self) -> bool {
+        true
+    }
     fn required_probes(&self, _tier: Tier) -> Vec<String> {
         vec![
             "fault:collections_forced".into(),
